@@ -230,11 +230,12 @@ MERGE_BODIES = ["empty", "code", "comment-first", "shebang", "crlf"]
 
 class MergeOneStream(Stream):
     name = "mergeone"
-    rule = ("add_header_to_file(merge_copyrights=True) run 5 times on files without a header, exactly one requested notice: 16 typed prefixes "
+    rule = ("add_header_to_file(merge_copyrights=True) run 5 times on files without a header, exactly one requested notice (one in four: a second "
+            "one of another holder — nothing to merge either way): 16 typed prefixes "
             "(the ten documented ones, lower-case (c), SPDX-SnippetCopyrightText, doubled blanks) x 11 typed year forms (single, spaced / "
             "compact / lopsided range, trailing comma, equal ends, descending range, none) x 7 holders x 10 styles x 5 tag-free bodies, with "
             "and without a licence / a contributor, forced multi-line where supported (all combinations of prefix x year in every run, the "
-            "rest sampled); oracle: bytes after run 2..5 = bytes after run 1, the holder stands exactly once; non-trivial = distinct "
+            "rest sampled); oracle: bytes after run 2..5 = bytes after run 1, every holder stands exactly once; non-trivial = distinct "
             "(prefix, year form, outcome)")
 
     def cases(self, tier, rng):
@@ -245,9 +246,16 @@ class MergeOneStream(Stream):
                     h = rng.choice(MERGE_HOLDERS)
                     st = style_by_name(rng.choice(MERGE_STYLES))
                     notice = "%s %s%s" % (p, (y + " ") if y else "", h)
+                    cpr, holders = [notice], [h]
+                    if rng.random() < 0.25:
+                        # a second notice, of another holder: still nothing to merge, both are rewritten
+                        h2 = rng.choice([x for x in MERGE_HOLDERS if x not in h and h not in x])
+                        y2 = rng.choice(TYPED_YEARS)
+                        cpr.append("%s %s%s" % (rng.choice(TYPED_PREFIXES[:14]), (y2 + " ") if y2 else "", h2))
+                        holders.append(h2)
                     multi = "1" if st.can_handle_multi() and rng.random() < 0.3 else "0"
-                    yield {"s": st.__name__, "f": "0" + multi + "110", "cpr": [notice], "lic": rng.choice([["MIT"], ["MIT"], [], ["0BSD", "MIT"]]),
-                           "con": rng.choice([[], [], ["Alice"]]), "t": base.BODIES[rng.choice(MERGE_BODIES)](st), "holder": h, "p": p, "y": y}
+                    yield {"s": st.__name__, "f": "0" + multi + "110", "cpr": cpr, "lic": rng.choice([["MIT"], ["MIT"], [], ["0BSD", "MIT"]]),
+                           "con": rng.choice([[], [], ["Alice"]]), "t": base.BODIES[rng.choice(MERGE_BODIES)](st), "holders": holders, "p": p, "y": y}
 
     def impl(self, case):
         return json.dumps(run_n(case))
@@ -255,10 +263,10 @@ class MergeOneStream(Stream):
     def oracle(self, case, impl_out):
         if impl_out.startswith("EXC"):
             return "crash: " + impl_out
-        return judge_probes(json.loads(impl_out), [case["holder"]] + ["SPDX-License-Identifier: " + l for l in case["lic"]])
+        return judge_probes(json.loads(impl_out), case["holders"] + ["SPDX-License-Identifier: " + l for l in case["lic"]])
 
     def classify(self, case, failure):
-        return "c10-merge-doubled-blank-prefix" if failure.startswith("rerun-changes-file") and doubled_blank_prefix(case["cpr"][0]) else None
+        return "c10-merge-doubled-blank-prefix" if failure.startswith("rerun-changes-file") and any(doubled_blank_prefix(c) for c in case["cpr"]) else None
 
     def nontrivial(self, case, impl_out):
         return (case["p"], case["y"], impl_out[:4]) if not impl_out.startswith("EXC") else None
